@@ -23,10 +23,10 @@ for pid in sorted(PROPS):
 out.append("\nNot applicable: none — every property has a logic core that M expresses; where part of the truth lives in the\n"
            "runtime (native stack bytes, process I/O, wasm, JSON-RPC) the MANIFEST `level_note` names the part that is only exercised.\n")
 out.append("\n---------------------------------------------------------------------------\n\n## 6. Seeded changes: which check catches which\n\n"
-           "One hundred and sixty changes (six per property in three rounds of two, then two more for each property in a fourth round - the twelve core-interpreter properties - and a fifth - the other eight) were written by fresh sub-agents that saw only the property text and a\n"
+           "One hundred and eighty changes (six per property in three rounds of two, then two more for each property in a fourth round - the twelve core-interpreter properties - and a fifth - the other eight -, and one more for each in a sixth) were written by fresh sub-agents that saw only the property text and a\n"
            "scratch worktree (the second round was also told what the first had tried, so as not to repeat it); each compiles,\n"
            "passes the 153 existing tests, and comes with a demonstration that fails with the change and passes without it\n"
-           "(confirmed here with `tools/confirm_seed.sh`).  They are kept under `seeded/<id>-<a..h>/` (`patch.diff`, demo,\n"
+           "(confirmed here with `tools/confirm_seed.sh`).  They are kept under `seeded/<id>-<a..i>/` (`patch.diff`, demo,\n"
            "`meta.json`) and were run with `tools/try_seed.sh` (apply to /repo, `./check`, undo).\n\n"
            "Round 2 (`-c`, `-d`) was run against the checks as they stood after round 1: 22 of 40 were reported at once, 18 were\n"
            "MISSED by the quick tier (C01-c, C02-c, C03-c, C03-d, C04-d, C05-d, C06-c, C08-d, C10-c, C10-d, C11-c, C11-d, C12-c,\n"
@@ -78,6 +78,29 @@ out.append("\n------------------------------------------------------------------
            "(C15); lines refused for a syntax error inside an RND call, after which the generator must not have moved (C18);\n"
            "NEW followed by further words / in other letter case (C19); a document opened again with a different text, with\n"
            "or without a close in between (C20; new operation `lspo`).  All 16 are now reported with a concrete failing input.\n\n"
+           "Round 6 (`-i`, one change per property, blind; the authors were told everything earlier rounds had tried and asked for a\n"
+           "change that 'a very thorough differential-testing and proof-based verification effort could still overlook': rarely\n"
+           "generated inputs, interactions of two features, state surviving from an earlier operation, representation\n"
+           "boundaries, paths reached only after an error).  This was the hardest round: 3 of 20 reported at once with a failing\n"
+           "input (C02-i, C07-i, C12-i), 2 only weakly (C13-i because the extractor could not read the reshaped keyword table,\n"
+           "C17-i as a model disagreement), 15 MISSED.  What the misses had in common - and what was added, as families again:\n"
+           "two faults at one statement, where the ORDER of the checks decides the error kind (re-DIM of an existing array with\n"
+           "more than 10000 cells: C03); blanks that are not BASIC blanks in front of a line number (C04); line numbers that\n"
+           "differ by a power of two within one file (C05); every statement that takes a variable with every shape of target,\n"
+           "e.g. `FOR A(1) = ..` (C06); statements JUXTAPOSED without a colon - `X = X + 1 INPUT Y` is a legal line of this\n"
+           "dialect and none of the generators wrote one (C08); a prompt PRINT in front of an INPUT whose reply is refused,\n"
+           "with the rule that a call reporting ?REENTER prints nothing (C09); INPUT with a target list, answered short and\n"
+           "abandoned, in RUN histories (C10); edits that change nothing observable - a remark for a remark, the same text again\n"
+           "(C11); not-a-number and infinities (from `(0-1)^.5`, `9^999`, replies and DATA items spelled `nan` / `inf`) in every\n"
+           "position of FOR, DIM, subscripts, jumps (C01); typographic quotes and other look-alike spellings around text with\n"
+           "a straight quote (C14); no-break and full-width blanks inside strings, remarks and DATA of loaded files (C15); a\n"
+           "FOR typed at a BREAKPOINT prompt for a variable whose loop is open, up to 34 times (C16); re-seeding in the middle\n"
+           "of a session, with 0 and with the current state (C18); replies with an unclosed quote and trailing blanks on the\n"
+           "page (C19); every handshake a client may open with, incl. one that offers UTF-8 positions (C20); blank runs of\n"
+           "254..300 bytes inside every multi-character token (C13); the trace oracle extended to the CONT command (C17).\n"
+           "All 20 are now reported, 19 with a concrete failing input.  One of the new families exposed a bug of the harness\n"
+           "itself (an index out of range in a case label), which ended the slice with a misattributed 'implementation died';\n"
+           "`VERIF_LOUD_PANICS=1` now shows such panics.\n\n"
            "Mechanical mutants (`tools/mutants.py`, first campaign): all 238 one-token mutants of its operator set over the Rust\n"
            "sources (comparison flips, deleted statements, off-by-one constants) were each run through the existing tests and\n"
            "then through the quick tier in a scratch copy: 8 do not compile, 143 are killed by the existing tests, 57 by a check\n"
@@ -90,7 +113,7 @@ out.append("\n------------------------------------------------------------------
            "generator), and the deleted `discard_remaining_tokens()` at a colon in the false-branch scan of IF (no generator put\n"
            "further statements after an IF on the same line, so a later `IF .. ELSE` whose ELSE the scan would wrongly pick up\n"
            "never occurred; the generator now does).  C03 reports both with a concrete program.\n\n"
-           "The lesson kept from five rounds: misses were always generator reach, so every miss was answered with a\n"
+           "The lesson kept from six rounds: misses were always generator reach, so every miss was answered with a\n"
            "*family* of inputs (a dimension of the input space), and the evidence file prints the distribution of families.\n\n"
            "| seed | needs, in order to manifest | result |\n|---|---|---|\n")
 for d in sorted(glob.glob(os.path.join(V, "seeded", "*"))):
